@@ -15,7 +15,8 @@ class C15(Prop):
             "first len(all_pairs) indices visit every valid (version, suite) pair; non-trivial = at least one installation "
             "event observed; distinct = spec digests")
     reach = ["tls_legacy", "tls13", "tls13_switch_client", "tls13_switch_server", "quic_initial", "quic_tls", "quic_ku",
-             "mac_keys", "cbc_iv_implicit", "aead_fixed_iv", "sha384_prf", "resumption_shares_master_secret"]
+             "mac_keys", "cbc_iv_implicit", "aead_fixed_iv", "sha384_prf", "resumption_shares_master_secret",
+             "key_log_lines_of_connections_interleaved"]
 
     def plan(self, tier):
         p = super().plan(tier)
@@ -39,8 +40,17 @@ class C15(Prop):
             c2 = gen.gen_tls_conn(R.fork("conn2"), 1, cfg, used)
             if gen.make_resumption_of(R.fork("resume"), c2, c):
                 conns.append(c2)
-        return {"prop": "C15", "conns": conns, "tap": gen.gen_tap(R.fork("tap")),
+        spec = {"prop": "C15", "conns": conns, "tap": gen.gen_tap(R.fork("tap")),
                 "policy": R.choice(["concurrent", "sequential"])}
+        if idx >= len(pairs) and R.chance(35):
+            # concurrent handshakes: the lines of the connections alternate in the key log (a library appends each
+            # secret when it comes into existence), so the secrets of one connection are not contiguous
+            n0 = len(conns)
+            for j in range(R.range(1, 2)):
+                conns.append(gen.gen_tls_conn(R.fork("conn-other", j), n0 + j, cfg, used))
+            spec["keychan"] = {"mode": "file", "perm_seed": R.bits(30)}
+            spec["policy"] = "concurrent"
+        return spec
 
     def quic_available(self):
         import os
@@ -63,13 +73,15 @@ class C15(Prop):
                     mine += [p for p in pr if p[0] == "keyupd"]
                 if conn.get("resumes") is not None:
                     out.count("reach:resumption_shares_master_secret")
-                self.check_tls(out, conn, t, mine)
+                if "keychan" in spec:
+                    out.count("reach:key_log_lines_of_connections_interleaved")
+                self.check_tls(out, conn, t, mine, switches_attributable=len(spec["conns"]) == 1)
             else:
                 from .. import quicpeer
                 quicpeer.check_keys(out, conn, t, pr)
         return out
 
-    def check_tls(self, out, conn, t, pr):
+    def check_tls(self, out, conn, t, pr, switches_attributable=True):
         k = t["keys"]
         s = T.SUITES[conn["suite"]]
         ver = conn["ver"]
@@ -106,7 +118,7 @@ class C15(Prop):
                                 "%s: after Finished the %s direction uses key %s iv %s" % (tag, side, u[2], u[3]))
             sent = {d: any(r["d"] == d and r["kind"] == "ehs" for r in t["records"]) for d in "cs"}
             for d, name in (("s", True), ("c", False)):
-                if sent[d] and not any(u[1] == name for u in ups):
+                if switches_attributable and sent[d] and not any(u[1] == name for u in ups):
                     out.violate("installed-keys-equal-rfc", "missing:switch-to-application-keys",
                                 "%s: %s Finished seen but no key switch" % (tag, d))
         else:
